@@ -4,7 +4,7 @@ from props import simcommon
 HARNESS = ["sim"]
 ASSUMPTIONS = ["no equivocation (fork-free DAG); honest nodes only; signature R components pairwise distinct",
                "ECDSA signing is randomised: a seed fixes the schedule, not the signature bytes",
-               "theorems: C01_fame_agreement / C01_fame_decision_stable hold for all reachable states of the per-event pipeline under static membership (no accepted internal transaction) with no fork across the two nodes; no consensus pass ever fails there (C01_no_pass_fails); the view_ok/same_history hypotheses of the _partial theorems are discharged (stages S1-S3); block-level agreement (round-received, frames) is not yet proved"]
+               "theorems: full block agreement / prefix consistency (C01_agreement, C01_agreement_prefix) for every two reachable states of the per-event pipeline under static membership over a fork-free universe with pairwise distinct signature tie-break values; no consensus pass ever fails there; dynamic membership and cross-node forks are covered by the oracle and the correspondence only"]
 
 def run(ctx):
     cov, findings, diffs = None, [], []
@@ -20,8 +20,8 @@ def run(ctx):
                 cov[k] += c[k]
             cov["samples"] += c["samples"][:1]; cov["histogram_" + fl] = c["histogram"]; cov["distribution_" + fl] = c["distribution"]
     if diffs and not findings:
-        ctx["notes"].append("correspondence broken without an oracle finding: escalated search (thorough parameters)")
-        for fl in ("static", "dagrun"):
+        ctx["notes"].append("correspondence broken without an oracle finding: escalated search (more and longer histories, other seeds)")
+        for fl in ("split", "static", "dagrun"):
             findings += simcommon.escalate(ctx, fl, "C01")
             if findings: break
     return dict(findings=findings, coverage=cov, corr_diffs=diffs)
